@@ -367,8 +367,7 @@ func c08R5(c *Ctx, r *Report) {
 			}
 			// only the feed's own options (the parameter cell), not per-channel copies
 			root := rootAddr(inner.X)
-			al, isAlloc := root.(*ssa.Alloc)
-			if !isAlloc || al.Comment != "options" {
+			if al, isAlloc := root.(*ssa.Alloc); !isAlloc || al.Parent() != top || namedOf(al.Type()) != "ChangesOptions" {
 				return
 			}
 			nreq++
